@@ -409,9 +409,42 @@ class StmtMixin:
                 n = z3.If(hi - lo > 0, hi - lo, I(0))
                 yield from self.cut_for(node, s1, spec, ordv, n, lambda s, i: SV(T.Int, lo + i), {}, None)
             return
+        if isinstance(it, ast.Call) and isinstance(it.func, ast.Name) and it.func.id in ("enumerate", "zip") and not it.keywords:
+            for s1, n, elem, ghost in self.iter_source(it, st, node, ordv):
+                yield from self.cut_for(node, s1, spec, ordv, n, elem, ghost, None)
+            return
         for s1, seq in self.ev(it, st):
             seq = self.unwrap_opt(s1, seq, node, "iteration-over-None")
+            if seq.ty == T.Str:
+                for s2, n, elem, ghost in self.iter_source(None, s1, node, ordv, seq): 
+                    yield from self.cut_for(node, s2, spec, ordv, n, elem, ghost, None)
+                continue
             yield from self.for_over(node, s1, spec, ordv, seq)
+
+    def iter_source(self, it, st, node, ordv, val=None):
+        """index view (length, element function) of enumerate(...) / zip(...) / a string / a list; anything else is refused"""
+        if val is None and isinstance(it, ast.Call) and isinstance(it.func, ast.Name) and not it.keywords:
+            if it.func.id == "enumerate" and len(it.args) == 1:
+                for s1, n, el, gh in self.iter_source(it.args[0], st, node, ordv):
+                    yield s1, n, (lambda s, i, el=el: SV(Display, [SV(T.Int, i), el(s, i)])), gh
+                return
+            if it.func.id == "zip" and len(it.args) == 2:
+                for s1, n1, e1, g1 in self.iter_source(it.args[0], st, node, ordv):
+                    for s2, n2, e2, g2 in self.iter_source(it.args[1], s1, node, ordv):
+                        yield s2, z3.If(n1 <= n2, n1, n2), (lambda s, i, e1=e1, e2=e2: SV(Display, [e1(s, i), e2(s, i)])), dict(g1, **g2)
+                return
+        outs = [(st, val)] if val is not None else self.ev(it, st)
+        for s1, seq in outs:
+            seq = self.unwrap_opt(s1, seq, node, "iteration-over-None")
+            if seq.ty == T.Str:
+                yield s1, z3.Length(seq.t), (lambda s, i, q=seq: SV(T.Str, z3.SubString(q.t, i, I(1)))), {}
+            elif isinstance(seq.ty, T.List):
+                ty = seq.ty; arr = T.list_arr(ty, seq.t)
+                def elem(s, i, ty=ty, arr=arr):
+                    v = SV(ty.t, z3.Select(arr, i)); self.assume_wf(s, v); return v
+                yield s1, T.list_len(ty, seq.t), elem, {}
+            else:
+                raise VCError("iteration over %s inside enumerate/zip (line %d)" % (seq.ty, node.lineno))
 
     def for_over(self, node, s1, spec, ordv, seq):
         ty = seq.ty
